@@ -112,4 +112,12 @@ Proof.
   rewrite E. destruct Kb as [m g]. reflexivity.
 Qed.
 
+Theorem cpr_constructor_on_sorted_input B active (K : crs S) (junk : vec) : 0 < B ->
+  Forall (fun r => sorted_strict r = true) (rows K) ->
+  cpr_make B active K junk = cpr_setup B active K junk /\
+  cprb_make B active (to_gcrs (block_adapter B (crs_view K))) junk = cprb_setup B active (to_gcrs (block_adapter B (crs_view K))) junk.
+Proof.
+  intros HB Hs. split; [exact (cpr_make_sorted B active K junk (strict_all_weak _ Hs))|exact (cprb_make_block_view B active K junk HB Hs)].
+Qed.
+
 End Sorting.
